@@ -15,6 +15,15 @@ var c15eMembers = []string{"fetch_x", "fb9", "_priv", "Run", "info", "order", "b
 func VerifRun_C15e() {
 	root := verifVFSRoot()
 	src := "---@class Dog\n---@field fetch_x fun()\n---@field fb9 number\n---@field _priv number\n---@field Run fun()\n---@field info string\n---@field order number\nlocal Dog = {}\nfunction Dog:bark_loud() end\nfunction Dog:run2() end\nfunction Dog:_hid() end\nfunction Dog:done() end\n---@type Dog\nlocal d = {}\n"
+	// the class variable may be declared with a filled-in constructor on its line
+	if verifParamOr("CTOR", 1) == 1 && verifBool("filledConstructor") {
+		for i := 0; i+len("local Dog = {}") <= len(src); i++ {
+			if src[i:i+len("local Dog = {}")] == "local Dog = {}" {
+				src = src[:i] + "local Dog = { legs = 4 }" + src[i+len("local Dog = {}"):]
+				break
+			}
+		}
+	}
 	mi := verifConcretize(verifRange("member", 0, len(c15eMembers)-1))
 	plen := verifConcretize(verifRange("typed", 0, 9))
 	name := c15eMembers[mi]
